@@ -39,6 +39,12 @@ def budget(tier):
 
 
 def _order(r):
+    if r.random() < 0.04:
+        # orders so large that the DER lengths of the integers and of the
+        # sequence go long-form (>= 128 / >= 256 bytes)
+        bits = r.choice([984, 992, 1000, 1008, 1016, 1017, 1023, 1024, 1025,
+                         2040, 2048, 2100])
+        return r.getrandbits(bits) | (1 << (bits - 1)) | 1
     c = r.randrange(6)
     if c == 0:
         return r.choice(mcurves.named()).n
